@@ -14,7 +14,7 @@ import itertools
 import numpy as np
 
 META = dict(
-    engines=["product"],
+    engines=["product", "bfs"],
     technique="exhaustive enumeration of ensemble parameters, all chunkings and processing orders; differential oracle against independent single-configuration runs",
     text="All combinations of configuration count (1-3), displacement spec (scalar / per-element / anisotropic), directions, seeds, ensemble_mean, "
          "builder, detector, exit planes, scan and evaluation mode are simulated and every member is compared with an independent eager simulation "
@@ -26,6 +26,85 @@ META = dict(
 RTOL = 2e-5
 SIGMAS = {"scalar": 0.1, "element": {"Si": 0.1, "C": 0.05}, "aniso": (0.1, 0.05, 0.02)}
 SEEDS = [(1, 2, 3), (11, 7, 5)]
+
+
+HEVENTS = ["iterate", "build-eager", "build-lazy", "multislice-eager", "multislice-lazy", "blocks", "to_atoms_ensemble"]
+
+
+def _h_observe(state, ev):
+    """one real use of the (ensemble, potential) pair; returns a digestible observation"""
+    import abtem
+    from mc import universe as U
+
+    ens, pot = state["ens"], state["pot"]
+    if ev == "iterate":
+        return np.stack([np.asarray(a.atoms.positions if hasattr(a, "atoms") else a.positions) for a in ens])
+    if ev == "build-eager":
+        return np.asarray(pot.build(lazy=False).array)
+    if ev == "build-lazy":
+        return np.asarray(pot.build(lazy=True).compute().array)
+    if ev in ("multislice-eager", "multislice-lazy"):
+        lazy = ev.endswith("lazy")
+        out = U.builder("probe").multislice(pot, scan=U.scan("custom"), detectors=U.detector("pix"), lazy=lazy, **({"max_batch": 2} if lazy else {}))
+        return np.asarray((out.compute() if lazy else out).array)
+    if ev == "blocks":
+        return np.stack([np.asarray(list(b.item() if hasattr(b, "item") and not hasattr(b, "ensemble_shape") else b)[0].positions) for _, _, b in ens.generate_blocks(1)])
+    return np.stack([np.asarray(a.positions) for a in ens.to_atoms_ensemble()]) if hasattr(ens, "to_atoms_ensemble") else np.zeros(1)
+
+
+def run_history(c):
+    import abtem
+    from mc import universe as U
+    from mc.bfs import bfs
+
+    def fresh():
+        ens = make_ensemble({"kind": c["kind"], "n": c["n"], "sigma": "scalar", "dir": "xyz", "seed": 0, "mean": False})
+        return {"ens": ens, "pot": abtem.Potential(ens, gpts=U.GPTS, slice_thickness=2.0), "hist": []}
+
+    ref = {}
+
+    def fresh_obs(ev):
+        if ev not in ref:
+            try:
+                ref[ev] = _h_observe(fresh(), ev)
+            except Exception as e:  # noqa: BLE001
+                ref[ev] = "raises:" + type(e).__name__
+        return ref[ev]
+
+    def apply(s, ev):
+        try:
+            s["last"] = _h_observe(s, ev)
+        except Exception as e:  # noqa: BLE001
+            s["last"] = "raises:" + type(e).__name__
+        s["hist"].append(ev)
+        return "ok" if not isinstance(s["last"], str) else s["last"]
+
+    def enabled(s):
+        return HEVENTS if s["hist"] else [HEVENTS[c["first"]]]
+
+    def canon(s):
+        return tuple(s["hist"])
+
+    def check(s, hist, ev, info, pre):
+        want, got = fresh_obs(ev), s["last"]
+        if isinstance(want, str) or isinstance(got, str):
+            if not (isinstance(want, str) and isinstance(got, str) and want == got):
+                return [("history/outcome/" + ev, "%s after %r: %s, on a fresh object: %s" % (ev, list(hist), got if isinstance(got, str) else "ok", want if isinstance(want, str) else "ok"))]
+            return []
+        if got.shape != want.shape:
+            return [("history/shape/" + ev, "%s after %r has shape %r, on a fresh object %r" % (ev, list(hist), got.shape, want.shape))]
+        d = float(np.abs(got - want).max())
+        if d > RTOL * max(float(np.abs(want).max()), 1e-30):
+            return [("history/values/" + ev, "%s after %r differs from the same use of a fresh object by %.3g (max %.3g)" % (ev, list(hist), d, float(np.abs(want).max())))]
+        return []
+
+    res = bfs(fresh, apply, enabled, canon, check, c["depth"])
+    viol, seen = [], set()
+    for key, msg, hist in res["violations"]:
+        if key not in seen:
+            seen.add(key)
+            viol.append({"key": key, "msg": "%s (%s)" % (msg, c)})
+    return {"viol": viol, "obs": "%d histories %s" % (len(res["states"]), sorted(res["infos"].items())), "st": len(res["states"]), "tr": res["transitions"], "ref": res["transitions"], "nt": True}
 
 
 def make_ensemble(c):
@@ -65,6 +144,11 @@ def check(ctx):
     B = [dict(e) for e in ens]
     ctx.run(B, "run_seeds", rule="B: per ensemble spec all compositions of the ensemble axis x {eager blocks, lazy blocks}, single-seed regeneration, "
             "reversed order, to_atoms_ensemble", space="B seeds")
+    # H: histories on ONE FrozenPhonons + Potential object pair: whatever was done with it before (iterated, built eagerly / lazily, used in
+    # an eager or lazy multislice, partitioned), the next use gives what a fresh object gives
+    H = [{"kind": kind, "n": n, "first": f, "depth": 2 if q else 3} for kind in ("fp", "ae") for n in (2, 3) for f in range(len(HEVENTS))]
+    ctx.run(H, "run_history", rule="H: BFS over all sequences of %d uses of one ensemble object (depth 2 quick / 3 thorough), never merged" % len(HEVENTS), space="H object histories")
+
 
 
 def run_members(c):
